@@ -148,7 +148,8 @@ def known_log_mutation(where, hdrs, flens):
     """KNOWN FINDINGS about the log format (manifest): (a) a corrupted length field that makes the
     fragment extend beyond the end of the file is indistinguishable from a torn tail and ends the
     log silently; (b) the type byte is not covered by the checksum, so a change between valid
-    types silently drops or re-frames the record."""
+    types of the LAST fragment of the file silently drops or re-frames the last record (anywhere
+    else it is detected: D19, theorem type_flip_detected)."""
     name, rest = where.split("@")
     off, kind, newb = rest.split(":")
     off, newb = int(off), int(newb)
@@ -157,7 +158,9 @@ def known_log_mutation(where, hdrs, flens):
             newlen = (l & 0xff00) | newb if off == h + 4 else (l & 0xff) | (newb << 8)
             if h + 7 + newlen > flens.get(name, 0):
                 return "log-length-beyond-eof"
-        if off == h + 6 and newb in (0, 1, 2, 3):
+        if off == h + 6 and newb in (0, 1, 2, 3) and h == hdrs[name][-1][0]:
+            # only the last fragment of the file: since the repair of D19 every other changed type
+            # byte leaves a fragment that the sequencing rules drop, which recovery now rejects
             return "log-type-byte-not-checksummed"
     return None
 
